@@ -157,6 +157,9 @@ impl Driver {
             _ => {}
         }
         self.stats.inc("calls");
+        if let crate::node::Res::Err(k) = rec.result {
+            self.stats.inc(&format!("result_err_{k:?}"));
+        }
         self.stats.add("sends", rec.sends().count() as u64);
         if trace_on() {
             eprintln!("#{step_idx} {}", describe_input(&rec.input, self.setup.codec));
